@@ -116,24 +116,71 @@ def individual_case(ctx, rng, idx):
     except (ValueError, TypeError) as e:
         ctx.reject('constructor: ' + str(e)[:60])
         return
+    phases = 1
+    if case.fixed and np.any(case.free) and idx % 4 in (0, 2):
+        phases = 2 + int(rng.integers(2))
+    for phase in range(phases):
+        if phase:
+            # re-configure the SAME object: release some fixed parameters and
+            # fix as many free ones (count unchanged), in one call or two
+            names_full = case.full_names()
+            fixed_idx = np.flatnonzero(~case.free)
+            free_idx = np.flatnonzero(case.free)
+            k = int(rng.integers(1, min(len(fixed_idx), len(free_idx)) + 1))
+            rel = rng.choice(fixed_idx, size=k, replace=False)
+            fx = rng.choice(free_idx, size=k, replace=False)
+            d_rel = {names_full[i]: None for i in rel}
+            d_fix = {names_full[i]: float(x_full[i]) for i in fx}
+            try:
+                if rng.random() < 0.5:
+                    items = list(d_rel.items()) + list(d_fix.items())
+                    ll.fix_parameters(dict(
+                        items[i] for i in rng.permutation(len(items))))
+                else:
+                    ll.fix_parameters(d_fix)
+                    ll.fix_parameters(d_rel)
+            except Exception as e:      # noqa
+                ctx.violation_exc('refix_succeeds', e,
+                                  {'case': case.describe()}, feats)
+                return
+            case.free[rel] = True
+            case.free[fx] = False
+            case.fixed = {names_full[i]: float(x_full[i])
+                          for i in np.flatnonzero(~case.free)}
+            ctx.count('refixed_configurations')
+        if _individual_phase(ctx, rng, case, ll, x_full, with_prior, order,
+                             dict(feats, phase=phase)) == 'stop':
+            return
+
+
+def _individual_phase(ctx, rng, case, ll, x_full, with_prior, order, feats):
     x = x_full[case.free]
     if len(x) == 0:
-        return
+        return 'stop'
     obj = ll
     prior = None
     if with_prior:
         prior = pints.ComposedLogPrior(*[
             pints.GaussianLogPrior(float(v), 0.5) for v in x])
         obj = chi.LogPosterior(ll, prior)
+    free = case.free.copy()
 
     def ref(z):
-        s = case.ref_total_free(z, x_full)
+        zz = np.array(x_full, dtype=complex)
+        zz[free] = z
+        s = case.ref_total(zz)
         if prior is not None:
             s = s + np.sum(D.norm_logpdf(z, x, 0.5))
         return s
     rv = float(np.real(ref(x)))
     rg = D.cstep_grad(ref, x)
     names = obj.get_parameter_names()
+    want_names = [n for n, f in zip(case.full_names(), free) if f]
+    if list(names) != want_names:
+        ctx.violation('names_follow_free_parameters', 'names_after_refix',
+                      {'chi': list(names), 'expected': want_names,
+                       'case': case.describe()}, feats)
+        return 'stop'
     res = _grad_check(ctx, obj, x, rv, rg, feats, case.describe(),
                       'individual', order)
     if res is not None:
@@ -144,6 +191,7 @@ def individual_case(ctx, rng, idx):
                       'gradient_mismatch:individual:' + which,
                       {'chi': grad, 'reference': g_ref, 'worst': bad,
                        'names': names, 'case': case.describe()}, feats)
+        return 'stop'
 
 
 def _hier(ctx, rng, case, order, tag):
